@@ -15,6 +15,9 @@
 #include <pika/thread_support/unlock_guard.hpp>
 #include <pika/threading_base/scheduler_base.hpp>
 #include <pika/threading_base/thread_data.hpp>
+#if defined(PIKA_VERIF_HOOKS)
+# include <pika/threading_base/thread_pool_base.hpp>
+#endif
 #if defined(PIKA_HAVE_APEX)
 # include <pika/threading_base/external_timer.hpp>
 #endif
@@ -61,6 +64,7 @@ namespace pika::threads::detail {
     {
         PIKA_LOG(debug, "thread::thread({}), description({})", fmt::ptr(this), get_description());
         PIKA_VERIF_POST("task.new", this, verif_word(), 0);
+        PIKA_VERIF_POST("place.bind", this, scheduler_base_ != nullptr ? scheduler_base_->get_parent_pool()->get_pool_index() : 255, static_cast<int>(priority_));
 
         PIKA_ASSERT(stacksize_enum_ != execution::thread_stacksize::current);
 
@@ -210,6 +214,7 @@ namespace pika::threads::detail {
         ran_exit_funcs_ = false;
         exit_funcs_.clear();
         scheduler_base_ = init_data.scheduler_base;
+        PIKA_VERIF_POST("place.bind", this, scheduler_base_ != nullptr ? scheduler_base_->get_parent_pool()->get_pool_index() : 255, static_cast<int>(priority_));
         last_worker_thread_num_.store(std::size_t(-1), std::memory_order_relaxed);
 
         // We explicitly set the logical stack size again as it can be different
